@@ -106,13 +106,135 @@ theorem Inv.remember {st : St} (hinv : Inv g inp σ0 inputNames E0 done st) {i :
 
 end Traversal
 
+/-! ## a reduction-free expression over the bindings does not see the loop variables -/
+
+section IxIrrel
+variable (pt : Idx) (Δ : List (String × Int)) (arr : List (String × Arr Val)) (n : Nat)
+  (rk : String → Option Nat) (hΔ : ∀ x, rk x ≠ none → lookupIxL Δ x = none)
+include hΔ
+
+mutual
+theorem eval_ix_irrel : ∀ (e : SExpr), exprOK n e = true → ranksOK rk e = true →
+    eval { pt := pt, ix := Δ, arr := arr } e = eval { pt := pt, ix := [], arr := arr } e
+  | .int _, _, _ | .rat _ _, _, _ | .nan, _, _ | .idx _, _, _ => by simp [eval]
+  | .bool _, h, _ => by simp [exprOK] at h
+  | .reduce .., h, _ => by simp [exprOK] at h
+  | .var x, _, hr => by
+    simp only [ranksOK, beq_iff_eq] at hr
+    have h1 : Env.lookupIx { pt := pt, ix := Δ, arr := arr } x = none := hΔ x (by rw [hr]; simp)
+    have h2 : Env.lookupIx { pt := pt, ix := [], arr := arr } x = none := rfl
+    simp only [eval, h1, h2]
+    rfl
+  | .sub a ix, h, hr => by
+    simp only [exprOK] at h
+    simp only [ranksOK, Bool.and_eq_true] at hr
+    simp only [eval]
+    rw [evalList_ix_irrel ix h hr.2]
+    rfl
+  | .add a c, h, hr | .mul a c, h, hr | .quot a c, h, hr | .fdiv a c, h, hr | .rem a c, h, hr | .pow a c, h, hr
+  | .cmp _ a c, h, hr | .land a c, h, hr | .lor a c, h, hr => by
+    simp only [exprOK, Bool.and_eq_true] at h
+    simp only [ranksOK, Bool.and_eq_true] at hr
+    simp only [eval]
+    rw [eval_ix_irrel a h.1 hr.1, eval_ix_irrel c h.2 hr.2]
+  | .lnot a, h, hr | .cast _ a, h, hr => by
+    simp only [exprOK] at h
+    simp only [ranksOK] at hr
+    simp only [eval]
+    rw [eval_ix_irrel a h hr]
+  | .ite c t e, h, hr => by
+    simp only [exprOK, Bool.and_eq_true] at h
+    simp only [ranksOK, Bool.and_eq_true] at hr
+    simp only [eval]
+    rw [eval_ix_irrel c h.1.1 hr.1.1, eval_ix_irrel t h.1.2 hr.1.2, eval_ix_irrel e h.2 hr.2]
+  | .call f args, h, hr => by
+    simp only [exprOK] at h
+    simp only [ranksOK, Bool.or_eq_true, beq_iff_eq] at hr
+    simp only [eval]
+    rcases hr with hr | hr
+    · subst hr
+      simp [callExact]
+    · rw [evalList_ix_irrel args h hr]
+theorem evalList_ix_irrel : ∀ (es : List SExpr), exprOKList n es = true → ranksOKList rk es = true →
+    evalList { pt := pt, ix := Δ, arr := arr } es = evalList { pt := pt, ix := [], arr := arr } es
+  | [], _, _ => rfl
+  | e :: es, h, hr => by
+    simp only [exprOKList, Bool.and_eq_true] at h
+    simp only [ranksOKList, Bool.and_eq_true] at hr
+    simp only [evalList]
+    rw [eval_ix_irrel e h.1 hr.1, evalList_ix_irrel es h.2 hr.2]
+end
+
+mutual
+theorem safe_ix_irrel : ∀ (e : SExpr), exprOK n e = true → ranksOK rk e = true →
+    Safe { pt := pt, ix := Δ, arr := arr } e → Safe { pt := pt, ix := [], arr := arr } e
+  | .int _, _, _, _ | .rat _ _, _, _, _ | .nan, _, _, _ | .idx _, _, _, _ => by simp [Safe]
+  | .bool _, h, _, _ => by simp [exprOK] at h
+  | .reduce .., h, _, _ => by simp [exprOK] at h
+  | .var x, _, hr, hs => by
+    simp only [ranksOK, beq_iff_eq] at hr
+    simp only [Safe] at hs ⊢
+    rcases hs with hs | hs
+    · exact absurd (hΔ x (by rw [hr]; simp)) hs
+    · exact Or.inr hs
+  | .sub a ix, h, hr, hs => by
+    simp only [exprOK] at h
+    simp only [ranksOK, Bool.and_eq_true] at hr
+    simp only [Safe] at hs ⊢
+    obtain ⟨h1, arr0, j, h2, h3, h4⟩ := hs
+    refine ⟨safeList_ix_irrel ix h hr.2 h1, arr0, j, h2, ?_, h4⟩
+    rw [← evalList_ix_irrel pt Δ arr n rk hΔ ix h hr.2]
+    exact h3
+  | .add a c, h, hr, hs | .mul a c, h, hr, hs | .quot a c, h, hr, hs | .fdiv a c, h, hr, hs | .rem a c, h, hr, hs
+  | .pow a c, h, hr, hs | .cmp _ a c, h, hr, hs | .land a c, h, hr, hs | .lor a c, h, hr, hs => by
+    simp only [exprOK, Bool.and_eq_true] at h
+    simp only [ranksOK, Bool.and_eq_true] at hr
+    simp only [Safe] at hs ⊢
+    exact ⟨safe_ix_irrel a h.1 hr.1 hs.1, safe_ix_irrel c h.2 hr.2 hs.2⟩
+  | .lnot a, h, hr, hs | .cast _ a, h, hr, hs => by
+    simp only [exprOK] at h
+    simp only [ranksOK] at hr
+    simp only [Safe] at hs ⊢
+    exact safe_ix_irrel a h hr hs
+  | .ite c t e, h, hr, hs => by
+    simp only [exprOK, Bool.and_eq_true] at h
+    simp only [ranksOK, Bool.and_eq_true] at hr
+    simp only [Safe] at hs ⊢
+    have hc := eval_ix_irrel pt Δ arr n rk hΔ c h.1.1 hr.1.1
+    refine ⟨safe_ix_irrel c h.1.1 hr.1.1 hs.1, ?_, ?_⟩
+    · intro ht
+      exact safe_ix_irrel t h.1.2 hr.1.2 (hs.2.1 (by rw [hc]; exact ht))
+    · intro he
+      exact safe_ix_irrel e h.2 hr.2 (hs.2.2 (by rw [hc]; exact he))
+  | .call f args, h, hr, hs => by
+    simp only [exprOK] at h
+    simp only [ranksOK, Bool.or_eq_true, beq_iff_eq] at hr
+    simp only [Safe] at hs ⊢
+    rcases hr with hr | hr
+    · exact Or.inl hr
+    · rcases hs with hs | hs
+      · exact Or.inl hs
+      · exact Or.inr (safeList_ix_irrel args h hr hs)
+theorem safeList_ix_irrel : ∀ (es : List SExpr), exprOKList n es = true → ranksOKList rk es = true →
+    SafeList { pt := pt, ix := Δ, arr := arr } es → SafeList { pt := pt, ix := [], arr := arr } es
+  | [], _, _, _ => by simp [SafeList]
+  | e :: es, h, hr, hs => by
+    simp only [exprOKList, Bool.and_eq_true] at h
+    simp only [ranksOKList, Bool.and_eq_true] at hr
+    simp only [SafeList] at hs ⊢
+    exact ⟨safe_ix_irrel e h.1 hr.1 hs.1, safeList_ix_irrel es h.2 hr.2 hs.2⟩
+end
+
+end IxIrrel
+
 /-! ## what the fragment says about a reduction -/
 
 structure RedFacts (g : LGraph) (shape : Shape) (e : SExpr) (binds : List (String × Nat)) (impl : Strategy)
     (uo : List String) (rvars : List RVar) : Prop where
   ne : isEmptyShape shape = false
   nonempty : (splitChain e).1 ≠ []
-  ints : ∀ c ∈ (splitChain e).1, ∃ l h, c.2.2.1 = .int l ∧ c.2.2.2 = .int h
+  bounds : ∀ c ∈ (splitChain e).1, (exprOK shape.length c.2.2.1 = true ∧ ranksOK (rankIn g binds) c.2.2.1 = true) ∧
+    exprOK shape.length c.2.2.2 = true ∧ ranksOK (rankIn g binds) c.2.2.2 = true
   nodup : ((splitChain e).1.map (·.2.1)).Nodup
   disj : ∀ v ∈ (splitChain e).1.map (·.2.1), v ∉ binds.map (·.1)
   uo : uo = (splitChain e).1.map (·.2.1)
@@ -135,10 +257,8 @@ theorem redNode_facts {g : LGraph} {i : Nat} {shape : Shape} {e : SExpr} {binds 
   obtain ⟨⟨⟨⟨⟨⟨⟨⟨⟨⟨h1, h3⟩, h4⟩, h5⟩, h6⟩, h7⟩, h8⟩, h9⟩, h10⟩, h11⟩, h12⟩ := h
   refine ⟨h1, h3, ?_, h5, ?_, h7, h8, ?_, h10, h11, ?_⟩
   · intro c hc
-    obtain ⟨a, b⟩ := h4 c hc
-    obtain ⟨l, hl⟩ := isIntLit_iff a
-    obtain ⟨hh, hhh⟩ := isIntLit_iff b
-    exact ⟨l, hh, hl, hhh⟩
+    obtain ⟨⟨⟨a, b⟩, c0⟩, d⟩ := h4 c hc
+    exact ⟨⟨a, b⟩, c0, d⟩
   · intro v hv
     have := h6 v hv
     simpa using this
@@ -174,7 +294,8 @@ theorem mapNode_red_inv {g : LGraph} {fuel i : Nat} {st st' : St} {r : Impl} {sh
     (hn : g.get i = .indexLambda shape e binds impl tag uo rvars) (hf : RedFacts g shape e binds impl uo rvars)
     (hm : lookupResult st.results i = none) (h : mapNode g (fuel + 1) i st = .ok (r, st')) :
     ∃ uniq stu ns st1 bd, uniqNames rvars uo st = .ok (uniq, stu) ∧
-      recAll (mapNode g fuel) binds stu = .ok (ns, st1) ∧ bd = [] ∧
+      recAll (mapNode g fuel) binds stu = .ok (ns, st1) ∧
+      (∀ d, d ∈ bd ↔ ∃ c ∈ (splitChain e).1, d ∈ genDeps ns [] c.2.2.1 ∨ d ∈ genDeps ns [] c.2.2.2) ∧
       ilStore shape e tag rvars uniq ns bd i st1 = .ok (r, st') := by
   unfold mapNode at h
   simp only [hm, hn] at h
@@ -194,22 +315,30 @@ theorem mapNode_red_inv {g : LGraph} {fuel i : Nat} {st st' : St} {r : Impl} {sh
       have := hf.flags rv (by rw [hr]; simp)
       simp [this.1]
   simp only [hstore, Bool.or_true, if_true] at h
-  -- the dependencies of constant bounds
+  -- the dependencies of the bounds
   have hbd : ∀ (bd : List String), bd = (rvars.flatMap fun rv =>
       match boundsOf rv.name e with
       | some (lo, hi) => genDeps ns [] lo ++ genDeps ns [] hi
-      | none => []) → bd = [] := by
-    intro bd hbd
-    rw [hbd]
-    apply List.flatMap_eq_nil_iff.2
-    intro rv hrv
-    have hmem : rv.name ∈ (splitChain e).1.map (·.2.1) := by rw [← hf.rv]; exact List.mem_map.2 ⟨rv, hrv, rfl⟩
-    obtain ⟨c, hc, hcn⟩ := List.mem_map.1 hmem
-    have hb := boundsOf_chain (splitChain e).2 (splitChain e).1 hf.nodup c hc
-    rw [splitChain_mk, hcn] at hb
-    obtain ⟨l, hh, hl, hhh⟩ := hf.ints c hc
-    rw [hb]
-    simp [hl, hhh, genDeps_int]
+      | none => []) →
+      ∀ d, d ∈ bd ↔ ∃ c ∈ (splitChain e).1, d ∈ genDeps ns [] c.2.2.1 ∨ d ∈ genDeps ns [] c.2.2.2 := by
+    intro bd hbd d
+    rw [hbd, List.mem_flatMap]
+    constructor
+    · rintro ⟨rv, hrv, hd⟩
+      have hmem : rv.name ∈ (splitChain e).1.map (·.2.1) := by rw [← hf.rv]; exact List.mem_map.2 ⟨rv, hrv, rfl⟩
+      obtain ⟨c, hc, hcn⟩ := List.mem_map.1 hmem
+      have hb := boundsOf_chain (splitChain e).2 (splitChain e).1 hf.nodup c hc
+      rw [splitChain_mk, hcn] at hb
+      rw [hb] at hd
+      exact ⟨c, hc, List.mem_append.1 hd⟩
+    · rintro ⟨c, hc, hd⟩
+      have hmem : c.2.1 ∈ rvars.map (·.name) := by rw [hf.rv]; exact List.mem_map.2 ⟨c, hc, rfl⟩
+      obtain ⟨rv, hrv, hrn⟩ := List.mem_map.1 hmem
+      refine ⟨rv, hrv, ?_⟩
+      have hb := boundsOf_chain (splitChain e).2 (splitChain e).1 hf.nodup c hc
+      rw [splitChain_mk, ← hrn] at hb
+      rw [hb]
+      exact List.mem_append.2 hd
   cases himpl : impl with
   | unknown s => exact absurd himpl (hf.impl s)
   | stored => rw [himpl] at h; exact ⟨uniq, stu, ns, st1, _, hun, hrec, hbd _ rfl, h⟩
@@ -415,9 +544,9 @@ theorem mapNode_extF {g : LGraph} : ∀ (fuel i : Nat) (st : St) (r : Impl) (st'
           obtain ⟨hs', nb, st3'⟩ := hb
           rw [hf.ne] at hhb
           have hch : ∀ c ∈ (splitChain e).1, boundsOf c.2.1 e = some (c.2.2.1, c.2.2.2) ∧
-              (∃ u, lookupStr uniq c.2.1 = some u) ∧ (∃ l h, c.2.2.1 = .int l ∧ c.2.2.2 = .int h) := by
+              (∃ u, lookupStr uniq c.2.1 = some u) := by
             intro c hc
-            refine ⟨?_, ?_, hf.ints c hc⟩
+            refine ⟨?_, ?_⟩
             · have := boundsOf_chain (splitChain e).2 (splitChain e).1 hf.nodup c hc
               rwa [splitChain_mk] at this
             · cases hl : lookupStr uniq c.2.1 with
@@ -428,7 +557,7 @@ theorem mapNode_extF {g : LGraph} : ∀ (fuel i : Nat) (st : St) (r : Impl) (st'
                 have hmv : c.2.1 ∈ (splitChain e).1.map (·.2.1) := List.mem_map.2 ⟨c, hc, rfl⟩
                 simp only [List.contains_eq_mem, decide_eq_false_iff_not] at this
                 exact absurd hmv this
-          obtain ⟨ls, _, _, rfl, rfl, hd, _⟩ := hoistBounds_inv ns uniq e _ rvars st3 st3' hs' nb hf.rv hf.flags hch hhb
+          obtain ⟨ls, _, _, _, rfl, rfl, hd, _⟩ := hoistBounds_inv ns uniq e _ rvars st3 st3' hs' nb hf.rv hf.flags hch hhb
           simp only at hst
           split at hst
           · cases hst
@@ -637,17 +766,18 @@ variable {g : LGraph} {inp : String → Arr Val} {σ0 : Store} {inputNames E0 do
 
 theorem emitTemps_spec (bd : List String) : ∀ (hsl : List Hoisted) (st : St),
     Inv g inp σ0 inputNames E0 done st → (hsl.map (·.temp)).Nodup →
-    (∀ h ∈ hsl, ¬ arrNames inputNames st h.temp ∧ h.temp ∈ st.vng.existing ∧ h.temp ∉ E0 ∧ ∃ n, h.e = .int n) →
+    (∀ h ∈ hsl, ¬ arrNames inputNames st h.temp ∧ h.temp ∈ st.vng.existing ∧ h.temp ∉ E0 ∧
+      ∀ x ∈ readNames h.e, arrNames inputNames st x) →
     Alloc σ0 (emitTemps bd hsl st).stmts →
     Inv g inp σ0 inputNames E0 done (emitTemps bd hsl st) ∧
     (∀ x, arrNames inputNames (emitTemps bd hsl st) x ↔ x ∈ hsl.map (·.temp) ∨ arrNames inputNames st x) ∧
     (∀ x, x ∉ hsl.map (·.temp) → (storeOf σ0 (emitTemps bd hsl st)).get? x = (storeOf σ0 st).get? x) ∧
-    (∀ h ∈ hsl, ∀ n, h.e = .int n →
-      ∃ a, (storeOf σ0 (emitTemps bd hsl st)).get? h.temp = some a ∧ a.shape = [] ∧ a.get [] = .i n)
+    (∀ h ∈ hsl, ∃ a, (storeOf σ0 (emitTemps bd hsl st)).get? h.temp = some a ∧ a.shape = [] ∧
+      a.get [] = eval { pt := [], ix := [], arr := storeOf σ0 st } h.e)
   | [], st, hinv, _, _, _ => ⟨hinv, by simp [emitTemps], fun _ _ => rfl, by simp⟩
   | h :: rest, st, hinv, hnd, hall, hal => by
     have hnd' : h.temp ∉ rest.map (·.temp) ∧ (rest.map (·.temp)).Nodup := List.nodup_cons.1 hnd
-    obtain ⟨hname, hEx, hE0, n, hn⟩ := hall h (by simp)
+    obtain ⟨hname, hEx, hE0, hrd⟩ := hall h (by simp)
     rw [emitTemps_cons] at hal ⊢
     obtain ⟨hstm, _, _⟩ := emitTemps_fields bd rest (st.emit (tempStmt bd h))
     have hal1 : Alloc σ0 (tempStmt bd h :: st.stmts) :=
@@ -655,11 +785,11 @@ theorem emitTemps_spec (bd : List String) : ∀ (hsl : List Hoisted) (st : St),
     rw [tempStmt_eq] at hal1 hal ⊢
     obtain ⟨hinv1, hG1, hσ1, b, hb, hbs, hbq⟩ := Inv.emitL (id := h.id) (name := h.temp) (inames := []) (shape := [])
       (lets := []) (rhs := h.e) (deps := bd) hinv rfl rfl List.nodup_nil hname hEx (Or.inr hE0) hal1
-      (by rw [hn]; simp [readNames]) (by simp)
+      (fun hx => hname (hrd _ hx)) (by simp)
     obtain ⟨hinv', hG', hσ', hval'⟩ := emitTemps_spec bd rest _ hinv1 hnd'.2 (by
       intro h' hh'
       obtain ⟨a1, a2, a3, a4⟩ := hall h' (List.mem_cons_of_mem _ hh')
-      refine ⟨fun hx => ?_, a2, a3, a4⟩
+      refine ⟨fun hx => ?_, a2, a3, fun x hx => (hG1 x).2 (Or.inr (a4 x hx))⟩
       rcases (hG1 _).1 hx with hx | hx
       · exact hnd'.1 (hx ▸ List.mem_map.2 ⟨h', hh', rfl⟩)
       · exact a1 hx) hal
@@ -679,12 +809,20 @@ theorem emitTemps_spec (bd : List String) : ∀ (hsl : List Hoisted) (st : St),
     · intro x hx
       simp only [List.map_cons, List.mem_cons, not_or] at hx
       rw [hσ' x hx.2, hσ1 x hx.1]
-    · intro h' hh' m hm
+    · intro h' hh'
       rcases List.mem_cons.1 hh' with rfl | hh'
       · refine ⟨b, by rw [hσ' _ hnd'.1]; exact hb, hbs, ?_⟩
-        rw [hbq [] rfl, hm]
-        simp [eval]
-      · exact hval' h' hh' m hm
+        rw [hbq [] rfl]
+        rfl
+      · obtain ⟨a, ha1, ha2, ha3⟩ := hval' h' hh'
+        refine ⟨a, ha1, ha2, ?_⟩
+        rw [ha3]
+        apply eval_congr h'.e
+          { pt := [], ix := [], arr := storeOf σ0 (st.emit (storeStmt h.id h.temp [] [] [] h.e bd)) }
+          { pt := [], ix := [], arr := storeOf σ0 st } rfl rfl
+        intro x hx
+        have hxG := (hall h' (List.mem_cons_of_mem _ hh')).2.2.2 x hx
+        exact hσ1 x (fun e0 => hname (e0 ▸ hxG))
 
 end Temps
 
@@ -735,8 +873,8 @@ theorem red_spec (hy : Hyp g inp σ0 inputNames) (hE0 : ∀ x ∈ inputNames, x 
     exact (lookupNs_none_iff.1 hnone) (by rw [hnames]; exact rankIn_some_mem hx)
   have hUex1 : ∀ p ∈ uniq, p.2 ∈ st1.vng.existing := fun p hp =>
     hextF.ext.ex _ ((du.mem _).2 (Or.inl (List.mem_map.2 ⟨p, hp, rfl⟩)))
-  obtain ⟨name, st2, inames, st3, ls, st3', b', id, st4, deps, hnm, hins, hls, huniq, hd, _, _, hgu, hgen, hid, rfl, hst'⟩ :=
-    ilStore_invR (rankIn g binds) (n := shape.length) (splitChain_mk e).symm hf.ne hf.nodup hf.ints hf.rv hf.flags
+  obtain ⟨name, st2, inames, st3, ls, st3', b', id, st4, deps, hnm, hins, hls, huniq, hd, _, hlg, _, hgu, hgen, hid, rfl, hst'⟩ :=
+    ilStore_invR (rankIn g binds) (n := shape.length) (splitChain_mk e).symm hf.ne hf.nodup hf.rv hf.flags
       (huq.trans hf.uo) hf.body hf.ranks hfound hUex1 hst
   obtain ⟨deps', hem⟩ := emitStored_nd (hs := ls.flatMap RL.hs) (bd := bd) (id := id) (name := name)
     (inames := inames)
@@ -764,7 +902,7 @@ theorem red_spec (hy : Hyp g inp σ0 inputNames) (hE0 : ∀ x ∈ inputNames, x 
     rw [hex34]; exact (hd.mem x).2 (Or.inr (hex13 x hx))
   -- the bindings
   obtain ⟨hinv1, hres⟩ := recAll_specR IH binds stu ns st1 hrec hkb (hinv.drewMany du)
-    (hal.sub ⟨[storeStmt id name inames shape (sortLets (letsOf ls))
+    (hal.sub ⟨[storeStmt id name inames shape (sortLets (letsOf (inameVars inames) ls))
       (readBackBounds (ls.flatMap RL.hs) uniq (substIdx (inameVars inames) (mkChain (ls.map RL.renamed) b')))
       deps'], by simp [St.remember, St.emit, hst4]⟩)
   have hinv4 : Inv g inp σ0 inputNames E0 done st4 := hinv1.grow hst4 hres4 hex14
@@ -840,6 +978,35 @@ theorem red_spec (hy : Hyp g inp σ0 inputNames) (hE0 : ∀ x ∈ inputNames, x 
       = mkChain (ls.map RL.ker) (substIdx (inameVars inames) b') := by
     rw [substIdx_chain_ker, readBackBounds_chain _ uniq _ hsb ls (fun r hr => any_temp_hs hr)]
   rw [hrhs] at hal ⊢
+  -- the bounds
+  have hrkB : rankOf (binds.map fun b => (b.1, den g inp b.2)) = rankIn g binds :=
+    rankOf_binds binds (fun b hb => den_shapeR hy (suppAllR_node (hkb b hb)))
+  have hbF : ∀ r ∈ ls, (exprOK shape.length r.lo = true ∧ ranksOK (rankIn g binds) r.lo = true) ∧
+      exprOK shape.length r.hi = true ∧ ranksOK (rankIn g binds) r.hi = true := by
+    intro r hr
+    have hm : r.sem ∈ (splitChain e).1 := by rw [← hls]; exact List.mem_map.2 ⟨r, hr, rfl⟩
+    exact hf.bounds r.sem hm
+  have hbG : ∀ r ∈ ls, (exprOK shape.length r.lb = true ∧ ∀ x ∈ readNames r.lb, arrNames inputNames st4 x) ∧
+      exprOK shape.length r.ub = true ∧ ∀ x ∈ readNames r.ub, arrNames inputNames st4 x := by
+    intro r hr
+    obtain ⟨⟨a1, a2⟩, a3, a4⟩ := hbF r hr
+    obtain ⟨g1, g2⟩ := hlg r hr
+    obtain ⟨x1, x2, _⟩ := gen_sound hns4 [] shape.length r.lo r.lb a1 (by rw [hrkB]; exact a2) g1
+    obtain ⟨y1, y2, _⟩ := gen_sound hns4 [] shape.length r.hi r.ub a3 (by rw [hrkB]; exact a4) g2
+    exact ⟨⟨x1, x2⟩, y1, y2⟩
+  have hletReads : ∀ r ∈ ls, (∀ x ∈ readNames (substIdx (inameVars inames) r.lb), arrNames inputNames st4 x ∨ x ∈ inames) ∧
+      (∀ x ∈ readNames (substIdx (inameVars inames) r.ub), arrNames inputNames st4 x ∨ x ∈ inames) := by
+    intro r hr
+    obtain ⟨⟨_, x2⟩, _, y2⟩ := hbG r hr
+    constructor
+    · intro x hx
+      rcases readNames_substIdx_sub (inameVars inames) r.lb x hx with hx | hx
+      · exact Or.inl (x2 x hx)
+      · rw [readNamesList_inameVars] at hx; exact Or.inr hx
+    · intro x hx
+      rcases readNames_substIdx_sub (inameVars inames) r.ub x hx with hx | hx
+      · exact Or.inl (y2 x hx)
+      · rw [readNamesList_inameVars] at hx; exact Or.inr hx
   -- the store
   have hread : name ∉ readNames (mkChain (ls.map RL.ker) (substIdx (inameVars inames) b')) := by
     intro hx
@@ -851,10 +1018,17 @@ theorem red_spec (hy : Hyp g inp σ0 inputNames) (hE0 : ∀ x ∈ inputNames, x 
         · exact hUname (List.mem_reverse.1 hx)
       · rw [readNamesList_inameVars] at hx
         exact d2.fresh name hx (by rw [d1.ex]; simp)
-  have hletsr : ∀ l ∈ sortLets (letsOf ls), name ∉ readNames l.2 := by
-    intro l hl
-    obtain ⟨n, hn⟩ := letsOf_int ls l ((sortLets_perm _).mem_iff.1 hl)
-    rw [hn]; simp [readNames]
+  have hletsr : ∀ l ∈ sortLets (letsOf (inameVars inames) ls), name ∉ readNames l.2 := by
+    intro l hl hx
+    obtain ⟨r, hr, hc | hc⟩ := mem_letsOf ((sortLets_perm _).mem_iff.1 hl)
+    · rw [hc] at hx
+      rcases (hletReads r hr).1 name hx with h | h
+      · exact hname h
+      · exact d2.fresh name h (by rw [d1.ex]; simp)
+    · rw [hc] at hx
+      rcases (hletReads r hr).2 name hx with h | h
+      · exact hname h
+      · exact d2.fresh name h (by rw [d1.ex]; simp)
   obtain ⟨hinvE, hGE, hσE, b, hb, hbs, hbq⟩ := Inv.emitL (id := id) (deps := deps') hinv4 hf.ne hlen d2.nodup hname
     hnameEx (Or.inr (fun hE => d1.fresh (hinv1.seeds name hE)))
     (by simpa [St.remember, St.emit] using hal) hread hletsr
@@ -868,21 +1042,39 @@ theorem red_spec (hy : Hyp g inp σ0 inputNames) (hE0 : ∀ x ∈ inputNames, x 
   rw [he] at hsafe
   conv => rhs; rw [he]
   have hql : inames.length = q.length := by rw [hlen, inB_length hq']
-  obtain ⟨hth, hσl⟩ := tempsHold_lets (pointEnv inames q []) (storeOf σ0 st4) ls hd.nodup
+  obtain ⟨hth, hσl⟩ := tempsHold_lets (pointEnv inames q []) (storeOf σ0 st4) (inameVars inames) ls hd.nodup (by
+    intro r hr
+    constructor
+    · intro x hx ht
+      rcases (hletReads r hr).1 x hx with h | h
+      · exact hTG x ht h
+      · exact hTin x ht h
+    · intro x hx ht
+      rcases (hletReads r hr).2 x hx with h | h
+      · exact hTG x ht h
+      · exact hTin x ht h)
   -- the namespace in the store with the private scalars
-  have hnsl : NsOK (bindLets (pointEnv inames q []) (sortLets (letsOf ls)) (storeOf σ0 st4))
+  have hnsl : NsOK (bindLets (pointEnv inames q []) (sortLets (letsOf (inameVars inames) ls)) (storeOf σ0 st4))
       (arrNames inputNames st4) ns (binds.map fun b => (b.1, den g inp b.2)) := by
     intro x r hx
     obtain ⟨D, hD, hok⟩ := hns4 x r hx
     exact ⟨D, hD, hok.mono (fun _ h => h) (fun y hy => hσl y (fun ht => hTG y ht hy))⟩
+  have hevq := evalList_inameVars (storeOf σ0 st4) inames q [] d2.nodup hql [] (by simp)
+  have hiv : (inameVars inames).length = shape.length := by simp [inameVars, hlen]
+  have hVdisj : ∀ x, rankIn g binds x ≠ none → x ∉ ls.map (·.v) := by
+    intro x hx hv
+    cases hrk : rankIn g binds x with
+    | none => exact hx hrk
+    | some k => exact hf.disj x (by rw [← hvs]; exact hv) (rankIn_some_mem hrk)
   apply chain_eval _ _
     (fun Γ => Avoids (arrNames inputNames st4) Γ ∧
-      evalList { pt := [], ix := Γ, arr := bindLets (pointEnv inames q []) (sortLets (letsOf ls)) (storeOf σ0 st4) }
+      evalList { pt := [], ix := Γ, arr := bindLets (pointEnv inames q []) (sortLets (letsOf (inameVars inames) ls)) (storeOf σ0 st4) }
         (inameVars inames) = idxVals q)
-    [] q (splitChain e).2 (substIdx (inameVars inames) b') (ls.map (·.u)) (ls.flatMap RL.temps) hTU
+    [] q (splitChain e).2 (substIdx (inameVars inames) b') (ls.map (·.u)) (ls.flatMap RL.temps) (ls.map (·.v))
+    _ _ hTU
     ?_ ls [] [] (pointEnv inames q []) ⟨fun x u h => by simp [lookupStr] at h, fun _ _ => rfl⟩
     ⟨avoids_pointEnv hGin q, evalList_inameVars _ inames q [] d2.nodup hql [] (by simp)⟩
-    ?_ ?_ (by rw [hvs]; exact hf.nodup) (by rw [← hus]; exact du.nodup) hth hsafe ?_
+    ?_ (fun _ _ => rfl) ?_ (by rw [hvs]; exact hf.nodup) (by rw [← hus]; exact du.nodup) hth ?_ hsafe ?_
   · rintro Γ u n hu ⟨hav, hev⟩
     refine ⟨fun x hx => ?_, ?_⟩
     · rw [lookupIxL_cons, if_neg (fun (e : u = x) => hUG u hu (by rw [e]; exact hx))]
@@ -894,7 +1086,26 @@ theorem red_spec (hy : Hyp g inp σ0 inputNames) (hE0 : ∀ x ∈ inputNames, x 
     rfl
   · intro r hr
     refine ⟨List.mem_map.2 ⟨r, hr, rfl⟩, List.mem_flatMap.2 ⟨r, hr, by simp [RL.temps]⟩,
-      List.mem_flatMap.2 ⟨r, hr, by simp [RL.temps]⟩, by simp, by simp⟩
+      List.mem_flatMap.2 ⟨r, hr, by simp [RL.temps]⟩, List.mem_map.2 ⟨r, hr, rfl⟩, by simp, by simp⟩
+  · -- a bound that is evaluated has the value its private scalar holds
+    intro r hr Δ' hΔ'
+    obtain ⟨⟨a1, a2⟩, a3, a4⟩ := hbF r hr
+    obtain ⟨g1, g2⟩ := hlg r hr
+    obtain ⟨⟨x1, _⟩, y1, _⟩ := hbG r hr
+    have hΔrk : ∀ x, rankIn g binds x ≠ none → lookupIxL Δ' x = none := fun x hx => hΔ' x (hVdisj x hx)
+    constructor
+    · intro hs
+      have hs0 := safe_ix_irrel q Δ' _ shape.length (rankIn g binds) hΔrk r.lo a1 a2 hs
+      rw [eval_ix_irrel q Δ' _ shape.length (rankIn g binds) hΔrk r.lo a1 a2,
+        eval_substIdx (inameVars inames) q r.lb _ (by rw [hiv]; exact x1) hevq]
+      exact ((gen_sound hns4 q shape.length r.lo r.lb a1 (by rw [hrkB]; exact a2) g1).2.2 _
+        (avoids_pointEnv hGin q) hs0).symm
+    · intro hs
+      have hs0 := safe_ix_irrel q Δ' _ shape.length (rankIn g binds) hΔrk r.hi a3 a4 hs
+      rw [eval_ix_irrel q Δ' _ shape.length (rankIn g binds) hΔrk r.hi a3 a4,
+        eval_substIdx (inameVars inames) q r.ub _ (by rw [hiv]; exact y1) hevq]
+      exact ((gen_sound hns4 q shape.length r.hi r.ub a3 (by rw [hrkB]; exact a4) g2).2.2 _
+        (avoids_pointEnv hGin q) hs0).symm
   · rintro Δ' Γ' hren ⟨hav, hev⟩ hsafeb
     rw [List.nil_append, ← huniq] at hren
     rw [eval_substIdx (inameVars inames) q b' _ hb1' hev]
@@ -920,8 +1131,8 @@ theorem red_spec0 (hy : Hyp g inp σ0 inputNames) (hE0 : ∀ x ∈ inputNames, x
     exact (lookupNs_none_iff.1 hnone) (by rw [hnames]; exact rankIn_some_mem hx)
   have hUex1 : ∀ p ∈ uniq, p.2 ∈ st1.vng.existing := fun p hp =>
     hextF.ext.ex _ ((du.mem _).2 (Or.inl (List.mem_map.2 ⟨p, hp, rfl⟩)))
-  obtain ⟨name, st2, inames, st3, ls, st3', b', id, st4, deps, hnm, hins, hls, huniq, hd, _, _, hgu, hgen, hid, rfl, hst'⟩ :=
-    ilStore_invR (rankIn g binds) (n := shape.length) (splitChain_mk e).symm hf.ne hf.nodup hf.ints hf.rv hf.flags
+  obtain ⟨name, st2, inames, st3, ls, st3', b', id, st4, deps, hnm, hins, hls, huniq, hd, _, hlg, _, hgu, hgen, hid, rfl, hst'⟩ :=
+    ilStore_invR (rankIn g binds) (n := shape.length) (splitChain_mk e).symm hf.ne hf.nodup hf.rv hf.flags
       (huq.trans hf.uo) hf.body hf.ranks hfound hUex1 hst
   rw [emitStored_0d h0] at hst'
   subst hst'
@@ -1022,6 +1233,22 @@ theorem red_spec0 (hy : Hyp g inp σ0 inputNames) (hE0 : ∀ x ∈ inputNames, x
       = mkChain (ls.map RL.ker) (substIdx (inameVars inames) b') := by
     rw [substIdx_chain_ker, readBackBounds_chain _ uniq _ hsb ls (fun r hr => any_temp_hs hr)]
   rw [hrhs] at hal ⊢
+  -- the bounds
+  have hrkB : rankOf (binds.map fun b => (b.1, den g inp b.2)) = rankIn g binds :=
+    rankOf_binds binds (fun b hb => den_shapeR hy (suppAllR_node (hkb b hb)))
+  have hbF : ∀ r ∈ ls, (exprOK shape.length r.lo = true ∧ ranksOK (rankIn g binds) r.lo = true) ∧
+      exprOK shape.length r.hi = true ∧ ranksOK (rankIn g binds) r.hi = true := by
+    intro r hr
+    have hm : r.sem ∈ (splitChain e).1 := by rw [← hls]; exact List.mem_map.2 ⟨r, hr, rfl⟩
+    exact hf.bounds r.sem hm
+  have hbG : ∀ r ∈ ls, (exprOK shape.length r.lb = true ∧ ∀ x ∈ readNames r.lb, arrNames inputNames st4 x) ∧
+      exprOK shape.length r.ub = true ∧ ∀ x ∈ readNames r.ub, arrNames inputNames st4 x := by
+    intro r hr
+    obtain ⟨⟨a1, a2⟩, a3, a4⟩ := hbF r hr
+    obtain ⟨g1, g2⟩ := hlg r hr
+    obtain ⟨x1, x2, _⟩ := gen_sound hns4 [] shape.length r.lo r.lb a1 (by rw [hrkB]; exact a2) g1
+    obtain ⟨y1, y2, _⟩ := gen_sound hns4 [] shape.length r.hi r.ub a3 (by rw [hrkB]; exact a4) g2
+    exact ⟨⟨x1, x2⟩, y1, y2⟩
   -- the bound temporaries
   have htn : (ls.flatMap RL.hs).map (·.temp) = ls.flatMap RL.temps := hs_temps ls
   obtain ⟨hstmT, hresT, hvngT⟩ := emitTemps_fields bd (ls.flatMap RL.hs) st4
@@ -1031,18 +1258,20 @@ theorem red_spec0 (hy : Hyp g inp σ0 inputNames) (hE0 : ∀ x ∈ inputNames, x
       have htm : h'.temp ∈ ls.flatMap RL.temps := by rw [← htn]; exact List.mem_map.2 ⟨h', hh', rfl⟩
       refine ⟨hTG _ htm, by rw [hex34]; exact (hd.mem _).2 (Or.inl htm),
         fun hE => hTfresh _ htm (hex13 _ (hinv1.seeds _ hE)), ?_⟩
-      obtain ⟨r0, _, hin0⟩ := List.mem_flatMap.1 hh'
+      obtain ⟨r0, hr0, hin0⟩ := List.mem_flatMap.1 hh'
       simp only [RL.hs, List.mem_cons, List.mem_nil_iff, or_false] at hin0
       rcases hin0 with rfl | rfl
-      · exact ⟨_, rfl⟩
-      · exact ⟨_, rfl⟩)
+      · exact (hbG r0 hr0).1.2
+      · exact (hbG r0 hr0).2.2)
     (hal.sub ⟨[storeStmt id name inames shape [] (mkChain (ls.map RL.ker) (substIdx (inameVars inames) b')) deps],
       by simp [St.remember, St.emit]⟩)
   rw [htn] at hGT hσT
-  have hth : TempsHold (storeOf σ0 (emitTemps bd (ls.flatMap RL.hs) st4)) ls := by
+  have hth : TempsHold (storeOf σ0 (emitTemps bd (ls.flatMap RL.hs) st4))
+      (fun r => eval { pt := [], ix := [], arr := storeOf σ0 st4 } r.lb)
+      (fun r => eval { pt := [], ix := [], arr := storeOf σ0 st4 } r.ub) ls := by
     intro r hr
-    refine ⟨hvalT ⟨r.v, r.tl, r.il, .int r.l⟩ (List.mem_flatMap.2 ⟨r, hr, by simp [RL.hs]⟩) r.l rfl,
-      hvalT ⟨r.v, r.tu, r.iu, .int r.h⟩ (List.mem_flatMap.2 ⟨r, hr, by simp [RL.hs]⟩) r.h rfl⟩
+    exact ⟨hvalT ⟨r.v, r.tl, r.il, r.lb⟩ (List.mem_flatMap.2 ⟨r, hr, by simp [RL.hs]⟩),
+      hvalT ⟨r.v, r.tu, r.iu, r.ub⟩ (List.mem_flatMap.2 ⟨r, hr, by simp [RL.hs]⟩)⟩
   -- the store
   have hread : name ∉ readNames (mkChain (ls.map RL.ker) (substIdx (inameVars inames) b')) := by
     intro hx
@@ -1079,14 +1308,23 @@ theorem red_spec0 (hy : Hyp g inp σ0 inputNames) (hE0 : ∀ x ∈ inputNames, x
     intro x r hx
     obtain ⟨D, hD, hok⟩ := hns4 x r hx
     exact ⟨D, hD, hok.mono (fun _ h => h) (fun y hy => hσT y (fun ht => hTG y ht hy))⟩
+  have hshape0 : shape = [] := List.length_eq_zero_iff.1 h0
+  have hq0 : q = [] := List.length_eq_zero_iff.1 (by rw [inB_length hq', h0])
+  have hin0 : inames = [] := List.length_eq_zero_iff.1 (by rw [hlen, h0])
+  have hVdisj : ∀ x, rankIn g binds x ≠ none → x ∉ ls.map (·.v) := by
+    intro x hx hv
+    cases hrk : rankIn g binds x with
+    | none => exact hx hrk
+    | some k => exact hf.disj x (by rw [← hvs]; exact hv) (rankIn_some_mem hrk)
   apply chain_eval _ _
     (fun Γ => Avoids (arrNames inputNames st4) Γ ∧
       evalList { pt := [], ix := Γ, arr := storeOf σ0 (emitTemps bd (ls.flatMap RL.hs) st4) }
         (inameVars inames) = idxVals q)
-    [] q (splitChain e).2 (substIdx (inameVars inames) b') (ls.map (·.u)) (ls.flatMap RL.temps) hTU
+    [] q (splitChain e).2 (substIdx (inameVars inames) b') (ls.map (·.u)) (ls.flatMap RL.temps) (ls.map (·.v))
+    _ _ hTU
     ?_ ls [] [] (pointEnv inames q []) ⟨fun x u h => by simp [lookupStr] at h, fun _ _ => rfl⟩
     ⟨avoids_pointEnv hGin q, evalList_inameVars _ inames q [] d2.nodup hql [] (by simp)⟩
-    ?_ ?_ (by rw [hvs]; exact hf.nodup) (by rw [← hus]; exact du.nodup) hth hsafe ?_
+    ?_ (fun _ _ => rfl) ?_ (by rw [hvs]; exact hf.nodup) (by rw [← hus]; exact du.nodup) hth ?_ hsafe ?_
   · rintro Γ u n hu ⟨hav, hev⟩
     refine ⟨fun x hx => ?_, ?_⟩
     · rw [lookupIxL_cons, if_neg (fun (e : u = x) => hUG u hu (by rw [e]; exact hx))]
@@ -1098,7 +1336,23 @@ theorem red_spec0 (hy : Hyp g inp σ0 inputNames) (hE0 : ∀ x ∈ inputNames, x
     rfl
   · intro r hr
     refine ⟨List.mem_map.2 ⟨r, hr, rfl⟩, List.mem_flatMap.2 ⟨r, hr, by simp [RL.temps]⟩,
-      List.mem_flatMap.2 ⟨r, hr, by simp [RL.temps]⟩, by simp, by simp⟩
+      List.mem_flatMap.2 ⟨r, hr, by simp [RL.temps]⟩, List.mem_map.2 ⟨r, hr, rfl⟩, by simp, by simp⟩
+  · -- a bound that is evaluated has the value its temporary holds
+    intro r hr Δ' hΔ'
+    obtain ⟨⟨a1, a2⟩, a3, a4⟩ := hbF r hr
+    obtain ⟨g1, g2⟩ := hlg r hr
+    have hΔrk : ∀ x, rankIn g binds x ≠ none → lookupIxL Δ' x = none := fun x hx => hΔ' x (hVdisj x hx)
+    have hav0 : Avoids (arrNames inputNames st4) [] := fun _ _ => rfl
+    subst hq0
+    constructor
+    · intro hs
+      have hs0 := safe_ix_irrel [] Δ' _ shape.length (rankIn g binds) hΔrk r.lo a1 a2 hs
+      rw [eval_ix_irrel [] Δ' _ shape.length (rankIn g binds) hΔrk r.lo a1 a2]
+      exact ((gen_sound hns4 [] shape.length r.lo r.lb a1 (by rw [hrkB]; exact a2) g1).2.2 _ hav0 hs0).symm
+    · intro hs
+      have hs0 := safe_ix_irrel [] Δ' _ shape.length (rankIn g binds) hΔrk r.hi a3 a4 hs
+      rw [eval_ix_irrel [] Δ' _ shape.length (rankIn g binds) hΔrk r.hi a3 a4]
+      exact ((gen_sound hns4 [] shape.length r.hi r.ub a3 (by rw [hrkB]; exact a4) g2).2.2 _ hav0 hs0).symm
   · rintro Δ' Γ' hren ⟨hav, hev⟩ hsafeb
     rw [List.nil_append, ← huniq] at hren
     rw [eval_substIdx (inameVars inames) q b' _ hb1' hev]
